@@ -874,6 +874,13 @@ func (c *Conn) readLoop() {
 
 		stop := c.dispatch(fr)
 
+		// GOAWAY named the last stream the server will answer. The connection
+		// is done when nothing at or below it is left to wait for, which the
+		// GOAWAY frame itself may already bring about.
+		if c.state == connStateClosed && c.afterGoAway() {
+			stop = true
+		}
+
 		ReleaseFrameHeader(fr)
 
 		if stop {
@@ -935,11 +942,54 @@ func (c *Conn) dispatch(fr *FrameHeader) bool {
 		c.finish(r, fr.Stream(), err)
 	}
 
-	if err != nil && errors.Is(err, FlowControlError) {
-		return true
+	return err != nil && errors.Is(err, FlowControlError)
+}
+
+// errGoAwayUnprocessed resolves a request on a stream above the last one the
+// server's GOAWAY says it will answer. The server has not acted on it and
+// never will (RFC 7540 6.8), so it can be sent again on another connection.
+var errGoAwayUnprocessed = fmt.Errorf("%w to this request: the server sent GOAWAY before processing it", ErrConnectionClosed)
+
+// afterGoAway fails the requests the server's GOAWAY leaves out and reports
+// whether no request is left waiting for an answer. The read loop runs it for
+// every frame from the GOAWAY on: a request can still be on its way through
+// the write loop when the GOAWAY arrives.
+func (c *Conn) afterGoAway() bool {
+	var above []uint32
+
+	c.reqLck.Lock()
+	left := len(c.reqQueued)
+
+	for id := range c.reqQueued {
+		if id > c.closeRef {
+			above = append(above, id)
+		}
+	}
+	c.reqLck.Unlock()
+
+	for _, id := range above {
+		r, ok := c.loadReq(id)
+		if !ok {
+			continue
+		}
+
+		if !r.acquireFor(c, id) {
+			c.dequeueReq(id)
+			continue
+		}
+
+		// A body that came from a reader has been consumed, in part at least,
+		// and cannot be produced a second time.
+		if r.bodyStream {
+			c.finish(r, id, NewResetStreamError(RefusedStreamError, "the server sent GOAWAY before processing the request"))
+		} else {
+			c.finish(r, id, errGoAwayUnprocessed)
+		}
+
+		r.release()
 	}
 
-	return c.state == connStateClosed && fr.Stream() == c.closeRef
+	return left == len(above)
 }
 
 func (c *Conn) writeRequest(ctx *Ctx) error {
@@ -974,6 +1024,7 @@ func (c *Conn) writeRequest(ctx *Ctx) error {
 	// for a stream has to come first.
 	bodyStream := req.IsBodyStream()
 	hasBody := bodyStream || len(req.Body()) != 0
+	ctx.bodyStream = bodyStream
 
 	// The server may have changed the header table size since the last request.
 	// The encoder is the write loop's, so this is the only safe place to apply
